@@ -2,6 +2,7 @@ package main
 
 import (
 	"go/types"
+	"golang.org/x/tools/go/ssa"
 	"strings"
 )
 
@@ -39,7 +40,7 @@ func (e *Exec) envIntrinsic(caller *frame, name string, args []Value) (Value, bo
 		if e.analyzers == nil {
 			e.analyzers = map[*Value]*analysisModel{}
 		}
-		am := &analysisModel{ops: args[0].(*Map)}
+		am := &analysisModel{ops: args[0].(*Map), sw: e.lastSwagger}
 		e.analyzers[p] = am
 		e.lastAnalyzer = p
 		if e.lastSwagger != nil { // the analyser registered right after a document is that document's
@@ -51,6 +52,52 @@ func (e *Exec) envIntrinsic(caller *frame, name string, args []Value) (Value, bo
 		}
 		e.run.noteStub("analysis.Spec: operations index supplied by the harness (Operations, OperationFor, SafeParamsFor, ParamsFor, OperationIDs)")
 		return p, true
+	}
+	return nil, false
+}
+
+func isNilFunc(v Value) bool {
+	switch f := v.(type) {
+	case nil:
+		return true
+	case *Closure:
+		return f == nil
+	case *ssa.Function:
+		return f == nil
+	}
+	return false
+}
+
+// pathItemParams: the parameters declared by the path item of the document (nil when there is none)
+func (e *Exec) pathItemParams(sw *Value, path Value) []Value {
+	if sw == nil {
+		return nil
+	}
+	swT := e.specType("Swagger").Underlying().(*types.Struct)
+	paths, _ := fieldByName((*sw).(Structure), swT, "SwaggerProps", "Paths").(*Value)
+	if paths == nil {
+		return nil
+	}
+	pt := e.specType("Paths").Underlying().(*types.Struct)
+	byPath, _ := (*paths).(Structure)[fieldIndex(pt, "Paths")].(*Map)
+	i := byPath.find(path)
+	if i < 0 {
+		return nil
+	}
+	pit := e.specType("PathItem").Underlying().(*types.Struct)
+	ps, _ := fieldByName(byPath.Vals[i].(Structure), pit, "PathItemProps", "Parameters").([]Value)
+	return ps
+}
+
+// sharedParam resolves #/parameters/X in the document
+func (e *Exec) sharedParam(sw *Value, toks []string) (Structure, bool) {
+	if sw == nil || len(toks) != 2 || toks[0] != "parameters" {
+		return nil, false
+	}
+	swT := e.specType("Swagger").Underlying().(*types.Struct)
+	shared, _ := fieldByName((*sw).(Structure), swT, "SwaggerProps", "Parameters").(*Map)
+	if i := shared.find(toks[1]); i >= 0 {
+		return shared.Vals[i].(Structure), true
 	}
 	return nil, false
 }
@@ -85,6 +132,31 @@ func registerEnvStubs() {
 			byPath := ops.Vals[i].(*Map)
 			if j := byPath.find(a[2]); j >= 0 {
 				pst := parT.Underlying().(*types.Struct)
+				// contract (analysis.paramsAsMap): the parameters of the path item come first; one that is a
+				// $ref resolves into the document's parameters section or is handed to the callback with an
+				// error - and the analyser panics when there is no callback
+				for _, pr := range e.pathItemParams(e.analyzers[a[0].(*Value)].sw, a[2]) {
+					ps := pr.(Structure)
+					rt := e.specType("Ref").Underlying().(*types.Struct)
+					toks := e.refTokens(fieldByName(ps, pst, "Refable", "Ref").(Structure)[fieldIndex(rt, "Ref")].(Structure))
+					if len(toks) > 0 {
+						resolved, ok := e.sharedParam(e.analyzers[a[0].(*Value)].sw, toks)
+						if !ok {
+							msg := "invalid reference: \"#/" + strings.Join(toks, "/") + "\""
+							if len(a) < 4 || isNilFunc(a[3]) {
+								panic(goPanic{msg})
+							}
+							goOn := e.call(c, a[3], []Value{copyVal(pr), e.newError(msg)}, 0).(*Term)
+							if e.branch(goOn) {
+								continue
+							}
+							break
+						}
+						ps = resolved
+					}
+					in := e.strOf(fieldByName(ps, pst, "ParamProps", "In"))
+					e.mapSet(out, in+"#"+e.strOf(fieldByName(ps, pst, "ParamProps", "Name")), copyVal(ps))
+				}
 				for _, pr := range e.opParams(byPath.Vals[j].(*Value)) {
 					in := e.strOf(fieldByName(pr.(Structure), pst, "ParamProps", "In"))
 					nm := fieldByName(pr.(Structure), pst, "ParamProps", "Name")
